@@ -9,6 +9,10 @@ Pipeline:
      on all prefixes of the example programs at token boundaries and random byte offsets, byte mutations, and
      pathological inputs (unterminated string / comment, 25-digit numerals, nesting at and beyond the limit, 10^5-fold
      repetitions, 0xFF and NUL bytes, empty input)
+  2b. evaluation-level errors: generated programs that parse but divide by a constant zero (every operand position of 2-, 3-,
+     4-ary divisions), are non-linear, ill-typed or use unknown names, run through the REAL planner in the assertion build and
+     in the NDEBUG build: the outcome must be a reported error (never a signal, a hang or acceptance); valid programs without
+     solution must end with the verdict; the evaluation model (Eval.v: `ev` = None) must predict the rejections it can express
   3. SUPPORT (labelled as such, not proof): the same inputs through -O0 and ASan+UBSan+LeakSanitizer builds of the front end;
      every example problem of solver/tests/CMakeLists.txt read + solved + serialised by the real planner with assertions
      ON, and (subset in the quick tier) under ASan+UBSan+LeakSanitizer; the reference counting of smt::json handles.
@@ -50,6 +54,7 @@ def prebuild():
     lang_build.build_parse(debug=True)
     lang_build.build_parse(san=True)
     lang_build.build_eval()
+    lang_build.build_eval(ndebug=True)
     lang_build.build_eval(san=True)
 
 
@@ -208,6 +213,90 @@ def planner_support(ctx, pend, eexe, sexe):
     return bad + sbad
 
 
+def eval_class(line):
+    """outcome class of a planner run on a program text: OK1 (solution) | OK0 / UNSAT (verdict: no solution) |
+    ERR (a std::exception reported by read()/solve(): invalid_argument, out_of_range, ...) | ABORT | HANG"""
+    if line.startswith("OK solved=1"):
+        return "OK1"
+    if line.startswith("OK solved=0") or line.startswith("UNSAT"):
+        return "UNSAT"
+    if line.startswith("ERR") or (line.startswith("EXC") and not line.startswith("EXC std::bad_alloc")):
+        return "ERR"
+    return lang_lib.outcome_class(line)
+
+
+def semantic_tie(ctx, pend, oexe, exes):
+    """Evaluation-level errors: programs that PARSE but divide by a constant zero (every operand position of 2-, 3-, 4-ary
+    divisions; literal, constant variable, expression evaluating to 0), are non-linear, ill-typed or refer to unknown names
+    must be REJECTED WITH A REPORTED ERROR by the real planner -- in the assertion build and in the NDEBUG build --, never
+    abort, hang or be accepted; valid programs without solution must end with the verdict. Where the evaluation model
+    (lang/Eval.v through the oracle's `semcheck`) can run the program it must predict the rejection; valid generated programs
+    (the model says OK) must not be rejected."""
+    cov = ctx.cov
+    rng = ctx.rng
+    progs = [(k, t, "ERR") for k, t in G.semantic_errors(rng, extra=1 if ctx.thorough else 0)]
+    progs += [("unsolvable:" + k, t, "UNSAT") for k, t in G.unsolvable_programs()]
+    # valid programs of the same shapes (non-zero divisors, linear products, well-typed connectives): must be accepted
+    for _ in range(400 if ctx.thorough else 60):
+        names = ["x%d" % i for i in range(rng.choice([0, 1, 2]))]
+        e, _ = G.gen_arith(rng, rng.choice([1, 2, 3]), set(names))
+        vals = {n: G.Fraction(1) for n in names}
+        mag = G.arith_magnitude(e, vals)
+        if mag is None or mag >= 2 ** 28:
+            continue
+        progs.append(("valid:arith", " ".join("real %s;" % n for n in names) + " real v = %s; v <= v + 1;" % text_of(e), "OK1"))
+    data = [t.encode("latin1") for _, t, _ in progs]
+    model = lang_lib.run_oracle(oexe, ["semcheck " + x.hex() for x in data], jobs=4)
+    res = {name: lang_lib.run_harness(exe, data, jobs=8, tmo=6, as_mb=4096) for name, exe in exes.items()}
+    dist, bad = {}, 0
+    for i, (k, t, want) in enumerate(progs):
+        fam = k.split(":")[0]
+        dist[fam] = dist.get(fam, 0) + 1
+        m = model[i].split(" ")[0]
+        if want == "ERR" and fam in ("div0", "nonlinear", "ill-typed") and m not in ("SEMERR", "SKIP"):
+            bad += 1
+            pend.violation("corr:semantic:model-accepts:" + fam, {"kind": "model", "program": t, "model": model[i]}, no_input=True)
+        if want == "OK1" and m not in ("OK", "SKIP"):
+            bad += 1
+            pend.violation("corr:semantic:model-rejects-valid", {"kind": "model", "program": t, "model": model[i]}, no_input=True)
+        for name, out in res.items():
+            got = eval_class(out[i])
+            if got == want:
+                # the reported error must be the one the program deserves (diagnostic class, not wording)
+                need = {"div0": "zero", "nonlinear": "non-linear"}.get(fam)
+                if want == "ERR" and need and need not in out[i]:
+                    bad += 1
+                    pend.violation("semantic:%s:wrong-diagnostic" % fam, {"kind": "semantic-error-program", "family": k, "program": t, "build": name,
+                                                                        "expected_diagnostic": need, "implementation": out[i][:300]})
+                continue
+            bad += 1
+            rep = {"kind": "semantic-error-program", "family": k, "program": t, "build": name, "expected_outcome": want, "implementation": out[i][:300],
+                   "model": model[i], "replay_cmd": "echo %s | <h_eval of that build>" % t.encode("latin1").hex()}
+            pend.violation("semantic:%s:%s:%s" % (fam, want, got), rep)
+    cov["semantic_errors"] = {"programs": len(progs), "builds": sorted(exes), "by_family": dist, "model_predictions": {c: sum(1 for x in model if x.startswith(c)) for c in ("SEMERR", "OK", "SKIP")},
+                              "disagreements": bad}
+    return len(progs), bad
+
+
+def text_of(e):
+    """plain infix text of a generated arithmetic tree, fully parenthesised (the printer of C16 is not needed here)"""
+    k = e[0]
+    if k == "int":
+        return e[1]
+    if k == "real":
+        return e[1] + "." + e[2]
+    if k == "id":
+        return e[1][0]
+    if k == "minus":
+        return "(-" + text_of(e[1]) + ")"
+    if k == "plus":
+        return "(+" + text_of(e[1]) + ")"
+    if k == "cast":
+        return text_of(e[2])
+    op = {"add": " + ", "sub": " - ", "mul": " * ", "div": " / "}[k]
+    return "(" + op.join(text_of(x) for x in e[1]) + ")"
+
+
 def run(ctx):
     cov = ctx.cov
     pend = lang_lib.Pending(ctx)
@@ -216,7 +305,8 @@ def run(ctx):
         ctx.violation("build:oracle_lang", {"kind": "oracle-build-failed", "log": olog[-3000:]}, no_input=True)
         return
     builds = {"h_parse": lang_build.build_parse(), "h_parse_dbg": lang_build.build_parse(debug=True), "h_parse_san": lang_build.build_parse(san=True),
-              "h_lex": lang_build.build_lex(), "h_eval": lang_build.build_eval(), "h_eval_san": lang_build.build_eval(san=True)}
+              "h_lex": lang_build.build_lex(), "h_eval": lang_build.build_eval(), "h_eval_nd": lang_build.build_eval(ndebug=True),
+              "h_eval_san": lang_build.build_eval(san=True)}
     for name, (exe, lg) in builds.items():
         if not exe:
             ctx.violation("build:" + name, {"kind": "harness-build-failed", "log": lg[-3000:]}, no_input=True)
@@ -231,6 +321,8 @@ def run(ctx):
     ctx.log("front-end outcome tie: %d inputs, %d disagreements" % (len(ins), b1))
     b2 = support_front(ctx, pend, ins, impl, builds["h_parse_dbg"][0], builds["h_parse_san"][0])
     ctx.log("support: -O0 and sanitizer front end: %d findings" % b2)
+    n4, b4 = semantic_tie(ctx, pend, oexe, {"assertions-on": builds["h_eval"][0], "NDEBUG": builds["h_eval_nd"][0]})
+    ctx.log("evaluation-level errors (assertion and NDEBUG builds): %d programs, %d disagreements" % (n4, b4))
     b3 = planner_support(ctx, pend, builds["h_eval"][0], builds["h_eval_san"][0])
     ctx.log("support: planner with assertions / sanitizers: %d findings" % b3)
 
@@ -238,9 +330,9 @@ def run(ctx):
         return bool(ctx.violations) or bool(pend.hit)
     vlib.proof_stage(ctx, search=search)
 
-    cov["evaluations"] = len(ins)
+    cov["evaluations"] = len(ins) + n4
     cov["distinct_nontrivial"] = len({x for _, x in ins if len(x) > 8})
-    cov["traces_validated_against_impl"] = len(ins) - b1
+    cov["traces_validated_against_impl"] = len(ins) - b1 + n4 - b4
     cov["pending_fixes_hit"] = pend.hit
     cov["rule"] = ("every prefix at a token boundary of the smallest example programs (25 random boundaries of the others), random byte "
                    "prefixes, byte mutations, 107 pathological inputs (nesting 1 .. 10^5 around the limit of 1000, repetitions up to 2*10^5, "
